@@ -90,8 +90,13 @@ class Section:
     # -- proof obligations -------------------------------------------------
     def obligation(self, label, status, backend="z3", detail="", model=None, dt=0.0):
         assert status in ("discharged", "refuted", "undecided")
-        self.part.obligations.append(dict(label=f"{self.name}: {label}", status=status, backend=backend,
-                                          dt=round(dt, 4), detail=str(detail)[:2000], model=model, npaths=1))
+        ob = dict(label=f"{self.name}: {label}", status=status, backend=backend,
+                  dt=round(dt, 4), detail=str(detail)[:2000], model=model, npaths=1)
+        if status == "refuted" and backend == "sympy" and " at {" in str(detail):
+            # the residue is the real code's own symbolic output evaluated exactly at a rational point
+            ob["replay"] = dict(reproduced=True, kind="the closed form returned by the real code (run on symbols) was evaluated "
+                                "exactly at a rational point and differs from the contract's value there", witness=str(detail)[:600])
+        self.part.obligations.append(ob)
 
     def explore(self, run, allowed_raises=(), maxpaths=4000, covers=(), tag=None):
         """run one symbolic exploration; every prove() inside becomes an obligation
